@@ -1,0 +1,81 @@
+//go:build verif
+
+package local
+
+import (
+	"context"
+	"sync"
+
+	"github.com/keep-network/keep-core/pkg/net"
+	"github.com/keep-network/keep-core/pkg/net/retransmission"
+	"github.com/keep-network/keep-core/pkg/operator"
+)
+
+// Verification hook (build tag verif): wrappers around existing unexported
+// identifiers only.
+
+// VerifC16NewChannel is getBroadcastChannel with a caller-provided
+// retransmission ticker instead of the 50ms time ticker.
+func VerifC16NewChannel(
+	name string,
+	operatorPublicKey *operator.PublicKey,
+	ticker *retransmission.Ticker,
+) net.BroadcastChannel {
+	broadcastChannelsMutex.Lock()
+	defer broadcastChannelsMutex.Unlock()
+	if broadcastChannels == nil {
+		broadcastChannels = make(map[string][]*localChannel)
+	}
+	identifier := randomLocalIdentifier()
+	channel := &localChannel{
+		name:                 name,
+		identifier:           &identifier,
+		operatorPublicKey:    operatorPublicKey,
+		messageHandlersMutex: sync.Mutex{},
+		messageHandlers:      make([]*messageHandler, 0),
+		unmarshalersMutex:    sync.Mutex{},
+		unmarshalersByType:   make(map[string]func() net.TaggedUnmarshaler, 0),
+		retransmissionTicker: ticker,
+	}
+	broadcastChannels[name] = append(broadcastChannels[name], channel)
+	return channel
+}
+
+// VerifC16Forget drops the channels registered under the name.
+func VerifC16Forget(name string) {
+	broadcastChannelsMutex.Lock()
+	defer broadcastChannelsMutex.Unlock()
+	delete(broadcastChannels, name)
+}
+
+// VerifC16HandlerCount returns the number of registered message handlers.
+func VerifC16HandlerCount(ch net.BroadcastChannel) int {
+	lc := ch.(*localChannel)
+	lc.messageHandlersMutex.Lock()
+	defer lc.messageHandlersMutex.Unlock()
+	return len(lc.messageHandlers)
+}
+
+// VerifC16Tap registers a raw message handler (no retransmission filter, no
+// handler loop) and returns its channel: everything passed to deliver.
+func VerifC16Tap(ch net.BroadcastChannel, size int) <-chan net.Message {
+	lc := ch.(*localChannel)
+	tap := make(chan net.Message, size)
+	lc.messageHandlersMutex.Lock()
+	defer lc.messageHandlersMutex.Unlock()
+	lc.messageHandlers = append(
+		lc.messageHandlers,
+		&messageHandler{ctx: context.Background(), channel: tap},
+	)
+	return tap
+}
+
+// VerifC16NextSeqno calls nextSeqno.
+func VerifC16NextSeqno(ch net.BroadcastChannel) uint64 {
+	return ch.(*localChannel).nextSeqno()
+}
+
+// VerifC16SenderID returns the transport identifier messages of the channel carry.
+func VerifC16SenderID(ch net.BroadcastChannel) string {
+	return ch.(*localChannel).identifier.String()
+}
